@@ -195,7 +195,8 @@ PLAN = {
 C05_Q = ["pair", "chain3p", "fanin1", "fanout", "fanoutshared", "fanout3shared", "diamondp", "ring2", "ringbreak"]
 C05_T = C05_Q + ["chain3t", "fanin2", "diamondt", "pullchain2", "ring3", "pullring", "pairL"]
 
-VACUITY = {"C04": ["NeverCirc"], "C03": ["NeverDone"], "C01": [], "C02": []}
+VACUITY = {"C04": ["NeverCirc"], "C03": ["NeverDone", "NeverFinishedComp"], "C01": [], "C02": []}
+VACUITY_FAMS = {"NeverCirc": ["ring2"], "NeverFinishedComp": ["finisher"]}
 
 
 def check(pid, tier):
@@ -221,7 +222,7 @@ def check(pid, tier):
             violations.append((p, f"design-level: {v} violated in Sched.tla", path))
     # vacuity: the terminal kinds the property talks about must be reachable
     for inv in VACUITY.get(pid, []):
-        rv = mc(fams[:2] if pid != "C04" else ["ring2"], "intended", "impl", [inv], [])
+        rv = mc(VACUITY_FAMS.get(inv, fams[:2]), "intended", "impl", [inv], [])
         if rv.ok:
             machinery.append(f"vacuity guard {inv} was not violated")
     # (2) negative controls
